@@ -5,17 +5,6 @@ pub proof fn axiom_dec_enc(set: SetId, s: Seq<char>)
     ensures dec(enc(set, s)) == Some(s)
 { }
 
-pub proof fn lemma_has_char_concat(a: Seq<char>, b: Seq<char>, c: char)
-    ensures has_char(a + b, c) == (has_char(a, c) || has_char(b, c))
-{
-    if has_char(a, c) { let i = choose|i: int| 0 <= i < a.len() && a[i] == c; assert((a + b)[i] == c); }
-    if has_char(b, c) { let i = choose|i: int| 0 <= i < b.len() && b[i] == c; assert((a + b)[a.len() + i] == c); }
-    if has_char(a + b, c) {
-        let i = choose|i: int| 0 <= i < (a + b).len() && (a + b)[i] == c;
-        if i < a.len() { assert(a[i] == c); } else { assert(b[i - a.len()] == c); }
-    }
-}
-
 pub proof fn lemma_enc_concat(set: SetId, a: Seq<char>, b: Seq<char>)
     ensures enc(set, a + b) == enc(set, a) + enc(set, b)
     decreases b.len()
